@@ -1053,6 +1053,49 @@ def build_cases(ctx):
     return cases
 
 
+# ----------------------------------------------------------------------------------------------
+# source facts (translation): which dispatch-relevant methods each operator class defines itself
+# ----------------------------------------------------------------------------------------------
+DISPATCH_RELEVANT = {'__neg__', '__add__', '__radd__', '__sub__', '__rsub__', '__mul__', '__rmul__', '__matmul__',
+                     '__rmatmul__', '__truediv__', '__pow__', '__call__', '_matvec', '_rmatvec', '_matmat', '_rmatmat',
+                     '_transpose', '_adjoint', 'transpose', 'adjoint', 'dot', 'matvec', 'rmatvec', 'matmat', 'rmatmat',
+                     'left_sparse_dot', 'right_sparse_dot', 'sum', 'astype', 'T', 'H'}
+DISPATCH_FILES = {'SparseLR': 'linalg/sparse_lowrank.py', 'Regularizer': 'linalg/operators.py',
+                  'Normalizer': 'linalg/operators.py', 'Laplacian': 'linalg/operators.py',
+                  'CoNeighbor': 'linalg/operators.py', 'Polynome': 'linalg/polynome.py'}
+
+
+def dispatch_obligations(ctx):
+    """Parse the anchored sources of the working tree (overlay mirror) and let the Lean side compare the class tables
+    with the ones the model's dispatch assumes."""
+    import ast
+    root = os.path.join(ctx.overlay_root, 'sknetwork')
+    lines, names = [], []
+    for cls, rel in DISPATCH_FILES.items():
+        tree = ast.parse(open(os.path.join(root, rel)).read())
+        node = next((n for n in tree.body if isinstance(n, ast.ClassDef) and n.name == cls), None)
+        if node is None:
+            ctx.broken('dispatch:' + cls, 'class %s not found in %s' % (cls, rel), {'entry': cls, 'obligation': 'dispatch'})
+            continue
+        base = node.bases[0].id if node.bases and isinstance(node.bases[0], ast.Name) else '?'
+        methods = sorted(n.name for n in node.body
+                         if isinstance(n, (ast.FunctionDef, ast.AsyncFunctionDef)) and n.name in DISPATCH_RELEVANT)
+        lines.append('c15.dispatch %s %s %s' % (cls, base, ','.join(methods) if methods else '-'))
+        names.append(cls)
+    answers = ctx.lean(lines) if lines else []
+    ok = 0
+    for cls, ln, a in zip(names, lines, answers):
+        if a == 'holds':
+            ok += 1
+        else:
+            ctx.broken('dispatch:' + cls, {'line': ln, 'answer': a,
+                                           'what': 'the methods the class defines no longer match the dispatch of the model (Op.neg / add / transpose ...)'},
+                       {'entry': cls, 'obligation': 'dispatch'})
+    ctx.extra['generated_obligations'] = len(DISPATCH_FILES)
+    ctx.extra['generated_discharged'] = ok
+    ctx.count('source-facts:dispatch-tables', len(lines))
+
+
 def corpus_cases(ctx):
     p = os.path.join(VERIF, 'corpus', 'C15.jsonl')
     out = []
@@ -1067,6 +1110,7 @@ def corpus_cases(ctx):
 
 def run(ctx):
     TIE_SKIPPED[0] = 0
+    dispatch_obligations(ctx)
     cases = corpus_cases(ctx) + build_cases(ctx)
     ctx.count('tie-skipped:normalize-of-inexact-zero-row', TIE_SKIPPED[0])
     ctx.extra['tolerance'] = {'TOL': str(TOL), 'rule': '|a - b| <= TOL * (1 + max|b|) per vector / matrix; exact whenever the float64 computation is exact'}
